@@ -150,7 +150,7 @@ func TestVerifC12HTTP(t *testing.T) {
 		idx := len(env.routes) + 1
 		env.routes[key] = idx
 		fmt.Fprintf(&text, "route add c12-%d /c12/%d/ %s/", idx, idx, env.upstream.URL)
-		if o := cc.Opts(c.Allow, c.Deny, c.Scheme); o != "" {
+		if o := cc.CaseOpts(c, true); o != "" {
 			fmt.Fprintf(&text, " opts %q", o)
 		}
 		text.WriteString("\n")
@@ -235,7 +235,7 @@ func TestVerifC12HTTP(t *testing.T) {
 			atomic.AddInt64(&reqs, 1)
 			cc2 := *c
 			cc2.Conc, cc2.XffStyle, cc2.N = cc.Name, style, n
-			desc := fmt.Sprintf("opts %q, client %s, X-Forwarded-For %s (%s), credentials %s", cc.Opts(c.Allow, c.Deny, c.Scheme), cc.Addr[c.Peer], c.ChainText(cc), style, c.Creds)
+			desc := fmt.Sprintf("opts %q, client %s, X-Forwarded-For %s (%s), credentials %s", cc.CaseOpts(c, true), cc.Addr[c.Peer], c.ChainText(cc), style, c.Creds)
 			if err != nil {
 				atomic.AddInt64(&plumbing, 1)
 				verifx.Emit(map[string]any{"kind": "oracle", "msg": desc + ": request failed: " + err.Error()})
@@ -244,6 +244,8 @@ func TestVerifC12HTTP(t *testing.T) {
 			out, known := status2outcome[status]
 			rulesCause := "rules:" + c.CfgClass()
 			switch {
+			case !known && status == 404 && !verifx.C12OtherValid[c.Other]:
+				continue // a target with a malformed other option may be refused as a whole: no route
 			case !known && (status == 502 || status == 503 || status == 504 || status == 404):
 				// the proxy could not reach the harness's upstream, or the route was not found: trouble of
 				// the environment / the harness, not a decision of the gate
@@ -297,7 +299,7 @@ func TestVerifC12HTTP(t *testing.T) {
 		if n%1201 == 5 {
 			sampleMu.Lock()
 			if len(samples) < 3 {
-				samples = append(samples, fmt.Sprintf("HTTP opts %q from %s xff %s creds %s -> %v", cc.Opts(c.Allow, c.Deny, c.Scheme), cc.Addr[c.Peer], c.ChainText(cc), c.Creds, c.Outcomes))
+				samples = append(samples, fmt.Sprintf("HTTP opts %q from %s xff %s creds %s -> %v", cc.CaseOpts(c, true), cc.Addr[c.Peer], c.ChainText(cc), c.Creds, c.Outcomes))
 			}
 			sampleMu.Unlock()
 		}
